@@ -7,8 +7,10 @@ from harness.valgen import ValGen, KEYS
 
 COQ_TARGETS = ["Check/InferCases.vo"]
 TRUSTED_BASE = ["typing's Union normalisation / == / hash as modelled (Model/Types.v)",
-                "store round trip and stub class generation are exercised on the real code and checked by the "
-                "Coq predicate td_boundedb; their models arrive with C08/C11"]
+                "the store round trip and the stub class generation are modelled (Model/Encode.v, Model/Render.v; theorems "
+                "td_survives_store, td_bounded_stub_classes) and tied per case: the real decoded type and the key counts of the "
+                "class stubs, executed as Python defines them, are judged by the Coq predicate td_boundedb",
+                "harness reifiers (values, typing objects) and the class-stub executor in harness/props/C06.py"]
 ASSUMPTIONS = ["dict keys of a reified value are pairwise distinct (Python dict invariant)"]
 PARTIAL = ["the bound on generated stub classes is proved by class identity (td_bounded_stub_classes) and by class NAME only "
            "under a no-collision side condition (td_bounded_stub_classes_by_name); where two generated classes share a name "
@@ -114,6 +116,126 @@ def stub_counts(impl):
     return counts, collision
 
 
+CLI_FX = '''
+def connect(config):
+    return None
+def listen(config, backlog=None):
+    return None
+def f(a, b=None):
+    return None
+class K:
+    def m(self, opts):
+        return None
+'''
+CLI_CFG = '''
+import contextlib
+from monkeytype.config import DefaultConfig
+from monkeytype.db.sqlite import SQLiteStore
+class C(DefaultConfig):
+    inside = False
+    def trace_store(self):
+        return SQLiteStore.make_store({db!r})
+    def max_typed_dict_size(self):
+        # "ctx" configurations know their limit only while the command runs (state set up in cli_context)
+        return {k} if (self.inside or not {ctxdep}) else 10
+    @contextlib.contextmanager
+    def cli_context(self, command):
+        self.inside = True
+        try:
+            yield
+        finally:
+            self.inside = False
+CONFIG = C()
+'''
+
+
+def text_counts(stub_text):
+    """key counts of every TypedDict class a whole module stub defines, executed in order as Python would"""
+    import ast
+    tree = ast.parse(stub_text)
+    ns = {}
+    exec("from __future__ import annotations\nfrom mypy_extensions import TypedDict\n", ns)
+    counts, names = [], []
+    for node in tree.body:
+        if isinstance(node, ast.ClassDef) and "TypedDict" in ast.get_source_segment(stub_text, node).split(":")[0]:
+            names.append(node.name)
+            try:
+                exec(compile("from __future__ import annotations\n" + ast.get_source_segment(stub_text, node), "<stub>", "exec"), ns)
+                counts.append(len(ns[node.name].__annotations__))
+            except Exception:
+                counts.append(10 ** 6)
+    return counts, len(names) != len(set(names))
+
+
+def cli_cases(ctx, rnd):
+    """`monkeytype stub` end to end: traces recorded under limit k, stubbed by the real command line with the
+    configuration reporting k (constantly, or only inside cli_context), with and without --disable-type-rewriting"""
+    import importlib
+    import io
+    import os
+    import sys
+    from monkeytype import cli
+    from monkeytype.db.sqlite import SQLiteStore
+    from monkeytype.tracing import CallTrace
+    from monkeytype.typing import get_type
+    d = os.path.join(ctx.work, "cli")
+    os.makedirs(d, exist_ok=True)
+    with open(os.path.join(d, "c06cli_fx.py"), "w") as f:
+        f.write(CLI_FX)
+    sys.path.insert(0, d)
+    out = []
+    try:
+        fx = importlib.import_module("c06cli_fx")
+        n = 36 if ctx.tier == "quick" else 400
+        atoms = [1, "x", None, 2.5, True]
+        for i in range(n):
+            k = rnd.choice([0, 1, 1, 2, 2, 3])
+            ctxdep = rnd.random() < 0.4
+            flags = ["--disable-type-rewriting"] if rnd.random() < 0.4 else []
+            db = os.path.join(d, f"s{i}.sqlite3")
+            cfgname = f"c06cfg_{ctx.seed}_{i}"
+            with open(os.path.join(d, cfgname + ".py"), "w") as f:
+                f.write(CLI_CFG.format(db=db, k=k, ctxdep=ctxdep))
+            traces, shapes = [], []
+            same_param = rnd.random() < 0.5      # connect(config) and listen(config): same parameter name, different shapes
+            for fn, pname in ((fx.connect, "config"), (fx.listen, "config") if same_param else (fx.f, "a"), (fx.K.m, "opts")):
+                wrap = rnd.choice(["plain", "plain", "list", "opt"])      # one container shape per function, so its calls merge
+                small = rnd.random() < 0.6                                # every call's dict fits the limit on its own
+                for _ in range(rnd.choice([1, 2, 3])):
+                    nk = (rnd.choice([1, k, max(1, k - 1)]) if small else rnd.choice([1, k, k + 1])) if k > 0 else rnd.randrange(1, 4)
+                    keys = rnd.sample(["a", "b", "c", "d"], max(1, min(4, nk)))
+                    dct = {kk: rnd.choice(atoms) for kk in keys}
+                    val = {"plain": dct, "list": [dct], "opt": dct}[wrap]
+                    args = {pname: get_type(val, k)}
+                    if fn is fx.K.m:
+                        pass
+                    traces.append(CallTrace(fn, args, type(None)))
+                    if wrap == "opt":
+                        traces.append(CallTrace(fn, {pname: type(None)}, type(None)))
+                    shapes.append((fn.__qualname__, sorted(keys), wrap))
+            SQLiteStore.make_store(db).add(traces)
+            so, se = io.StringIO(), io.StringIO()
+            try:
+                rc = cli.main(["-c", f"{cfgname}:CONFIG"] + flags + ["stub", "c06cli_fx"], so, se)
+            except Exception as e:
+                rc, se = 99, io.StringIO(f"{type(e).__name__}: {e}")
+            stub = so.getvalue()
+            rec = {"k": k, "limit_only_inside_cli_context": ctxdep, "flags": flags, "shapes": shapes, "rc": rc, "stub": stub[:3000],
+                   "stderr": se.getvalue()[-400:]}
+            if rc != 0 or not stub.strip():
+                rec["counts"], rec["collision"] = [10 ** 6], False
+            else:
+                try:
+                    rec["counts"], rec["collision"] = text_counts(stub)
+                except SyntaxError:
+                    rec["counts"], rec["collision"] = [10 ** 6], False
+            out.append(rec)
+    finally:
+        sys.path.remove(d)
+        sys.modules.pop("c06cli_fx", None)
+    return out
+
+
 def run(ctx):
     from monkeytype.encoding import type_from_json, type_to_json
     rnd = random.Random(ctx.seed + 6)
@@ -203,15 +325,36 @@ def run(ctx):
             rec["what"] = f"model (shrink_top k2 . map (get_type k1)) and implementation differ (verdict {code})"
             mismatches.append(rec)
     dist["merge_under_lower_limit_cases"] = len(m2cases)
+    # ---- through the real command line ----
+    clis = cli_cases(ctx, rnd)
+    cterms = [f"CliCase {c['k']} {common.coq_list(str(min(x, 100000)) for x in c['counts'])} {common.coq_bool(c['collision'])}" for c in clis]
+    outs3 = common.run_coq_shards(ctx.work, "c06c", header, cterms, "clicase", "bad verdict_c06_cli 0 cases")
+    for i, code in common.parse_bad(outs3):
+        c = clis[i]
+        rec = dict(c)
+        rec["term"] = cterms[i]
+        if code == 5:
+            rec["finding"] = "kf_hint_collision"
+            rec["what"] = (f"`monkeytype stub` (k={c['k']}, flags={c['flags']}): two generated TypedDict classes share a name, a "
+                           f"NonTotal class inherits from the wrong base: class key counts {c['counts']}")
+        else:
+            rec["what"] = (f"`monkeytype stub` with limit k={c['k']} (known only inside cli_context: {c['limit_only_inside_cli_context']}, "
+                           f"flags={c['flags']}) defines TypedDict classes with key counts {c['counts']} for traced dict shapes {c['shapes']} "
+                           f"(rc={c['rc']} {c['stderr'][-120:]})")
+        failures.append(rec)
+    dist["cli_stub_cases"] = len(clis)
+    dist["cli_stub_classes"] = sum(len(c["counts"]) for c in clis)
     distinct = len({common.digest(t) for t, c in zip(terms, cases) if "VDict" in c["term"]})
     d = infer_cases.distribution(cases)
     d.update(dist)
     return {
-        "evaluations": len(cases) + len(m2cases), "distinct_nontrivial": distinct + len({common.digest(t) for t in m2terms}),
+        "evaluations": len(cases) + len(m2cases) + len(clis), "distinct_nontrivial": distinct + len({common.digest(t) for t in m2terms}),
         "rule": "dicts of 0..12 keys (string/non-string/mixed) nested in every container kind, near-duplicates merged, "
                 "k in {0,1,2,3,10}, plus the C04 random stream; each case goes through get_type+shrink_types, the JSON "
                 "round trip and ReplaceTypedDictsWithStubs; non-trivial = contains a dict; distinct by hash of the reified case; plus str-keyed dict collections typed under "
-                "limit k1 and merged under a lower limit k2 (theorem td_merge_top_limit)",
+                "limit k1 and merged under a lower limit k2 (theorem td_merge_top_limit); plus stores of dict-carrying traces stubbed by the "
+                "real `monkeytype stub` command with the limit reported by the configuration (constantly or only inside "
+                "cli_context), with and without --disable-type-rewriting, every class of the stub executed and counted",
         "samples": [{"k": c["k"], "values": c["vs_repr"], "impl_type": c["impl"], "stub_counts": c["counts"]} for c in cases[:3]],
         "distribution": d, "failures": failures, "mismatches": mismatches, "relation": "corrb (infer k vs) impl",
     }
